@@ -288,6 +288,12 @@ const agg2CmpBodyRaw = `// check to see if anything needs to be created
 	switch {
 		case !safe && same && reuse == nil:
 			err = e.E.{{.Name}}Same(typ, dataA, dataB)
+			{{if not .VV -}}
+			if !leftTensor && len(dataA.Raw) == int(typ.Size()) && len(dataB.Raw) == int(typ.Size()) {
+				// both have one element: the kernel has put the result into the scalar
+				storage.Copy(typ, dataB, dataA)
+			}
+			{{end -}}
 			retVal = a
 		{{if .VV -}}
 		case same && safe && reuse != nil:
